@@ -93,6 +93,14 @@ def _convert_task(task):
             targets = [(v, vqt) for v, vqt in units if vqt != qt and vqt not in EXEMPT_QT and (all_pairs or reps[vqt] == v)]
             for v, vqt in targets:
                 part.count("nontrivial")
+                # the target unit has just been the target of VALID conversions (from a unit of its own type):
+                # whatever was remembered about it must not let a foreign amount through
+                vb = db.GetBaseUnit(vqt)
+                for prime in (lambda: Scalar(1.0, vb).GetValue(v), lambda: db.Convert(vqt, vb, v, 1.0), lambda: db.Convert(vqt, vb, v, [1.0]), lambda: db.Convert(vqt, vb, v, np.array([1.0])), lambda: Array([1.0], vb).GetValues(v), lambda: Scalar(1.0, vb).CreateCopy(unit=v)):
+                    try:
+                        prime()
+                    except Exception:
+                        pass
                 sn = "from mc import worlds\nfrom barril.units import *\nwith worlds.world('posc') as db:\n    try:\n        r = %s\n    except (UnitsError, TypeError, ValueError) as e:\n        print('raised', type(e).__name__); raise SystemExit(0)\n    print('returned', r); raise SystemExit(1)\n"
                 _loud(part, "C05:Convert:%s->%s" % (u, v), lambda: db.Convert(qt, u, v, 1.5), {}, sn % ("db.Convert(%r, %r, %r, 1.5)" % (qt, u, v)))
                 _loud(part, "C05:GetValue:%s->%s" % (u, v), lambda: s.GetValue(v), {}, sn % ("Scalar(1.5, %r).GetValue(%r)" % (u, v)))
